@@ -8,7 +8,7 @@ META = dict(
 )
 
 RULE = ("c29 verify: sets of real RelayProof values of one session (fresh entropy/request hash), sizes 5..20, 2^k-1, 2^k, 2^k+1 and one mid-range size per k up to 1100 "
-        "(thorough: every size 5..1100), each at one pre-upgrade and one post-upgrade height with the codec globals pinned; every index for n<=40, else 12 indices incl. 0,1,n-1, "
+        "(thorough: every size 5..1100), each at one pre-upgrade and one post-upgrade height (sets above 70: one of the two, alternating) with the codec globals pinned; every index for n<=40, else 8 indices incl. 0,1,n-1, "
         "padding boundary; real GenerateRoot/GenerateProofs/Validate, level count from the keeper's float expression; non-trivial = the call did not panic; "
         "levels: the float expression for every n<=2^20 (run-length encoded), 2^k-1,2^k,2^k+1 for k<=52, random n<=2^48")
 
@@ -24,7 +24,7 @@ def run(ctx):
         ctx.stream("verify", "c29", "Driver/C29.lean", n=6000, args=["-mode", "verify", "-max", "1100"], seed=ctx.seed + 101, timeout=3000, drv_timeout=3000)
         ctx.stream("levels", "c29", "Driver/C29.lean", n=20000, args=["-mode", "levels", "-lvupto", str(1 << 22)])
     else:
-        ctx.stream("verify", "c29", "Driver/C29.lean", n=700, args=["-mode", "verify", "-max", "1100"])
+        ctx.stream("verify", "c29", "Driver/C29.lean", n=600, args=["-mode", "verify", "-max", "1100"])
         ctx.stream("levels", "c29", "Driver/C29.lean", n=300, args=["-mode", "levels"])
 
 
